@@ -435,63 +435,130 @@ func Mod(a, b *Term) *Term {
 
 var zeroArr = &Term{Op: "zeroarr", Sort: SArr, key: "zeroarr"}
 
-func Select(a, i *Term) *Term {
-	// read-over-write with syntactically decidable indices
-	for a.Op == "store" {
-		j := a.Args[1]
-		if j.Key() == i.Key() {
-			return a.Args[2]
+// curDefs maps definition names of the VC being generated to their bodies, so that the
+// array simplifier can look through named memory versions.
+var curDefs map[string]*Term
+
+func expandDef(t *Term) *Term {
+	for t.Op == "sym" && curDefs != nil {
+		d, ok := curDefs[t.Name]
+		if !ok {
+			break
 		}
-		if distinctIdx(i, j) {
-			a = a.Args[0]
-			continue
+		t = d
+	}
+	return t
+}
+
+func Select(a, i *Term) *Term { return selectDepth(a, i, 6) }
+
+func selectDepth(a, i *Term, budget int) *Term {
+	cur := a
+	for {
+		c := expandDef(cur)
+		if c.Op == "store" {
+			j := c.Args[1]
+			if j.Key() == i.Key() || sameIdx(i, j) {
+				return c.Args[2]
+			}
+			if distinctIdx(i, j) {
+				cur = c.Args[0]
+				continue
+			}
+		} else if c.Op == "zeroarr" {
+			return Int(0)
+		} else if c.Op == "ite" && budget > 0 {
+			x := selectDepth(c.Args[1], i, budget-1)
+			y := selectDepth(c.Args[2], i, budget-1)
+			if x.Key() == y.Key() {
+				return x
+			}
+			// keep the pushed-down form only when it did not grow the term beyond the
+			// plain select: both sides resolved to something other than a raw select of
+			// the branch itself
+			if a.Sort == SMem || !(isRawSelect(x, c.Args[1]) && isRawSelect(y, c.Args[2])) {
+				return Ite(c.Args[0], x, y)
+			}
 		}
 		break
 	}
-	if a.Op == "zeroarr" {
-		return Int(0)
-	}
 	s := SInt
-	if a.Sort == SMem {
+	if cur.Sort == SMem {
 		s = SArr
 	}
-	return mk("select", s, a, i)
+	return mk("select", s, cur, i)
 }
 
-// distinctIdx reports whether two index terms are provably different: different
-// constants, or the same base plus different constants.
+func isRawSelect(t, arr *Term) bool {
+	return t.Op == "select" && t.Args[0] == arr
+}
+
+// normIdx expands definitions of an index term into (base key, constant offset).
+func normIdx(t *Term) (string, *big.Int) {
+	off := new(big.Int)
+	for k := 0; k < 64; k++ {
+		t = expandDefShallow(t)
+		if c := t.IntConst(); c != nil {
+			return "", off.Add(off, c)
+		}
+		if t.Op == "+" {
+			last := t.Args[len(t.Args)-1]
+			if c := last.IntConst(); c != nil && len(t.Args) == 2 {
+				off.Add(off, c)
+				t = t.Args[0]
+				continue
+			}
+		}
+		break
+	}
+	return t.Key(), off
+}
+
+func expandDefShallow(t *Term) *Term {
+	for t.Op == "sym" && curDefs != nil {
+		d, ok := curDefs[t.Name]
+		if !ok || !(d.Op == "sym" || d.Op == "const" || d.Op == "+") {
+			break
+		}
+		t = d
+	}
+	return t
+}
+
+func sameIdx(i, j *Term) bool {
+	bi, ci := normIdx(i)
+	bj, cj := normIdx(j)
+	return bi == bj && ci.Cmp(cj) == 0
+}
+
+// dynBase names the symbol that is >= every pre-existing object id (set per VC).
+var dynBase string
+
+// distinctIdx reports whether two index terms are provably different: same base with
+// different constant offsets, or a small constant (global / string object) against a
+// run-time allocated object.
 func distinctIdx(i, j *Term) bool {
-	bi, ci := splitConst(i)
-	bj, cj := splitConst(j)
+	bi, ci := normIdx(i)
+	bj, cj := normIdx(j)
 	if bi == bj {
 		return ci.Cmp(cj) != 0
+	}
+	if dynBase != "" {
+		lim := big.NewInt(firstDynObj)
+		if bi == "" && bj == dynBase && ci.Cmp(lim) < 0 && cj.Sign() >= 0 {
+			return true
+		}
+		if bj == "" && bi == dynBase && cj.Cmp(lim) < 0 && ci.Sign() >= 0 {
+			return true
+		}
 	}
 	return false
 }
 
-func splitConst(t *Term) (string, *big.Int) {
-	if c := t.IntConst(); c != nil {
-		return "", c
-	}
-	if t.Op == "+" {
-		last := t.Args[len(t.Args)-1]
-		if c := last.IntConst(); c != nil {
-			rest := t.Args[:len(t.Args)-1]
-			if len(rest) == 1 {
-				return rest[0].Key(), c
-			}
-			ks := make([]string, len(rest))
-			for k, r := range rest {
-				ks[k] = r.Key()
-			}
-			return "(+ " + strings.Join(ks, " ") + ")", c
-		}
-	}
-	return t.Key(), big.NewInt(0)
-}
+func splitConst(t *Term) (string, *big.Int) { return normIdx(t) }
 
 func Store(a, i, v *Term) *Term {
-	if a.Op == "store" && a.Args[1].Key() == i.Key() {
+	if a.Op == "store" && (a.Args[1].Key() == i.Key() || sameIdx(a.Args[1], i)) {
 		a = a.Args[0]
 	}
 	return mk("store", a.Sort, a, i, v)
